@@ -18,7 +18,7 @@ pub const ASCII_ODD: &[char] = &[
 pub const NON_ASCII: &[char] = &[
     'é', 'É', 'ß', 'Æ', 'æ', 'İ', 'ı', 'ǅ', 'ǆ', 'Ǆ', 'ǈ', 'ǋ', 'ǲ', 'ᾈ', 'ᾘ', 'ᾨ', 'ᾼ', 'ῌ', 'ῼ', 'Σ', 'ς', 'σ',
     '\u{212A}', 'ſ', 'ｃ', 'Ｃ', '中', '\u{0301}', '\u{200F}', '\u{FFFD}', '😀', '\u{10FFFF}', '\u{80}',
-    '\u{7FF}', '\u{800}', '\u{FFFF}', '\u{10000}', 'Ω', 'ω', 'Ⅷ', 'ⅷ', 'Ⓐ',
+    '\u{7FF}', '\u{800}', '\u{FFFF}', '\u{10000}', 'Ω', 'ω', 'Ⅷ', 'ⅷ', 'Ⓐ', '\u{FEFF}', '\u{200B}', '\u{A0}', '\u{2028}', '\u{AD}', 'Α', 'Ⱥ', 'ẞ',
 ];
 
 /// The 31 scalar values with `to_lowercase() != self` although `is_uppercase()` is false.
